@@ -26,6 +26,7 @@ LEVEL_TEXT = (
     'narrow range iff symmetric, saturating clip to the very type that is cast '
     'to, widened subtraction). From these the algebraic laws follow for exact '
     'arithmetic; floating-point rounding itself is not analysed.'
+    ' Exact-arithmetic tables of the scalar quantize / dequantize laws and of the zero-point / scale laws over listed lattices.'
 )
 LEVEL_NOTE = (
     'Trusted: reference formulas written in rules/c17.py; numpy functions are '
@@ -33,7 +34,7 @@ LEVEL_NOTE = (
     'arithmetic). Not decided: float rounding error, overflow of huge '
     'magnitudes, numpy broadcasting semantics.'
 )
-TECHNIQUE = 'path-sensitive def-use substitution + rational-function identity on ast (static)'
+TECHNIQUE = 'path-sensitive def-use substitution + rational-function identity on ast + exact-arithmetic tables of the quantization laws (abstract interpretation) (static)'
 
 UQT = shared.UQT
 KEEP = frozenset()
